@@ -109,6 +109,12 @@ def g_tmpl(objs, tag):
                                    glist(lambda k: g_tmpl(objs, k), o['kids']))
 
 
+def g_hop(objs, op):
+    if op['op'] == 'load':
+        return '(HLoad %s %s)' % (gN(op['id']), gN(op['base']))
+    return '(HOp %s)' % g_op(objs, op)
+
+
 def g_op(objs, op):
     if op['op'] == 'clear':
         return 'OClear'
@@ -131,13 +137,18 @@ def g_obs(o):
 def to_coq(case, obs):
     if 'crash' in obs or 'hang' in obs or obs['outcome'] == 'fault':
         return 'CCrash'
-    out = 'OutOk' if obs['outcome'] == 'ok' else '(OutErr %s)' % ERR[obs['outcome']]
+    oc = obs['outcome']
+    if oc == 'missing' and case['final']['op'] != 'delete' and not all(e[2] for e in obs['before']['entries']):
+        # a store / overwrite on a storage that is broken already (a history delete removed a referenced entry):
+        # the KeyError comes from loading the stored object for the identity check = the decision point of a clash
+        oc = 'clash'
+    out = 'OutOk' if oc == 'ok' else '(OutErr %s)' % ERR[oc]
     if any(c.get('post_outcome') == 'fault' for c in obs['crashes']) or obs.get('post_outcome') == 'fault':
         return 'CCrash'
     g_crash = lambda c: '{| writes_before := %s; seen := %s; seen_post := %s |}' % (
         gN(c['wb']), g_obs(c['obs']), g_obs(c['post']))
     return '(CStore %s %s %s %s %s %s %s %s %s %s)' % (
-        BACKEND[case['backend']], glist(lambda o: g_op(case['objs'], o), case['history']),
+        BACKEND[case['backend']], glist(lambda o: g_hop(case['objs'], o), case['history']),
         g_op(case['objs'], case['final']), g_obs(obs['before']), out, g_obs(obs['after']),
         glist(g_crash, obs['crashes']),
         '(Some %s)' % g_op(case['objs'], case['post']) if case.get('post') else 'None', g_obs(obs['after_post']),
@@ -350,6 +361,60 @@ def overwrite_existing_cases(backends, rng):
     return out
 
 
+def load_cases(backends):
+    """a query that caches: after the cache was dropped, `storage[i]` loads i and what it refers to into NEW objects; the
+    final operation uses the loaded objects (accepted), the original objects (stale: rejected before any write), or
+    identifiers the load did not touch (in the backend, not cached)"""
+    out = []
+    for b in backends:
+        for variant in range(8):
+            c = enum_case(b, 2, 'store_fresh', [], False)
+            objs, H = c['objs'], c['history']
+            tags = {o['id']: int(t) for t, o in objs.items()}
+            del objs[str(c['final']['t'])]
+            nxt = [max(int(t) for t in objs) + 1]
+
+            def obj(ident, kids=(), payload=None, tag=None):
+                t = tag if tag is not None else nxt[0]
+                if tag is None:
+                    nxt[0] += 1
+                objs[str(t)] = {'id': ident, 'payload': payload if payload is not None else 500 + t, 'kids': list(kids),
+                                'shape': 0, 'wrap': [False] * len(kids)}
+                return t
+            loaded = lambda base, ident: obj(ident, tag=base + ident, payload=objs[str(tags[ident])]['payload'])
+            H.append({'op': 'clear'} if variant % 2 == 0 else {'op': 'clear', 'how': 'reopen'})
+            if variant == 0:      # load the root: n0, n1, n2 are cached as new objects; use two of them
+                H.append({'op': 'load', 'id': 0, 'base': 1000})
+                final = {'op': 'store', 't': obj(4, [loaded(1000, 1), obj(5), loaded(1000, 2)])}
+            elif variant == 1:    # ... use an ORIGINAL object: stale, rejected
+                H.append({'op': 'load', 'id': 0, 'base': 1000})
+                final = {'op': 'store', 't': obj(4, [obj(5), tags[1]])}
+            elif variant == 2:    # load n3 -> [n1]: n0 and n2 stay uncached; n2 (original object) is rejected
+                H.append({'op': 'load', 'id': 3, 'base': 1000})
+                final = {'op': 'store', 't': obj(4, [loaded(1000, 1), tags[2]])}
+            elif variant == 3:    # load a leaf only, overwrite the root over loaded + new
+                H.append({'op': 'load', 'id': 1, 'base': 1000})
+                final = {'op': 'overwrite', 't': obj(0, [loaded(1000, 1), obj(5)])}
+            elif variant == 4:    # two loads: the second finds n1 cached (keeps the object of the first)
+                H += [{'op': 'load', 'id': 1, 'base': 1000}, {'op': 'load', 'id': 3, 'base': 1100}]
+                l1 = loaded(1000, 1)
+                l3 = obj(3, [l1], tag=1103, payload=objs[str(tags[3])]['payload'])
+                final = {'op': 'store', 't': obj(4, [l1, l3])}
+            elif variant == 5:    # two loads, then the leaf both of them needed is overwritten
+                H += [{'op': 'load', 'id': 1, 'base': 1000}, {'op': 'load', 'id': 3, 'base': 1100}]
+                final = {'op': 'overwrite', 't': obj(1, [obj(5)])}
+            elif variant == 6:    # load of a missing identifier, then load + delete + store over a loaded child
+                H += [{'op': 'load', 'id': 9, 'base': 1000}, {'op': 'load', 'id': 0, 'base': 1100}, {'op': 'delete', 'id': 0}]
+                final = {'op': 'store', 't': obj(0, [loaded(1100, 2), obj(5)])}
+            else:                 # load, then overwrite a loaded leaf and wrap it afterwards
+                H.append({'op': 'load', 'id': 0, 'base': 1000})
+                final = {'op': 'overwrite', 't': obj(2, [obj(5)])}
+            c['final'] = final
+            c['note'] = 'load %d' % variant
+            out.append(c)
+    return out
+
+
 def same_object_cases(backends):
     """re-registration with the SAME object: the cached object itself is stored again (no-op) / overwritten by itself
     (re-serialized over its cached children) - with the cache intact, cleared, or replaced by a new PulseStorage"""
@@ -488,7 +553,7 @@ def gen_cases(rng, tier, ctx):
         fam = c['note'].split()[0]
         # kill runs (a copy of the directory at every position, the process really killed at some) on a share of the cases
         c['kill'] = c['backend'] != 'dict' and (rng.random() < KILL_SHARE[tier] or c['note'] in ('cycle', 'enum delete')
-                                                or fam == 'lowlevel' or (fam in ('hist', 'ow') and rng.random() < 0.5))
+                                                or fam == 'lowlevel' or (fam in ('hist', 'ow', 'load') and rng.random() < 0.5))
         # read primitives as fault positions (exception semantics) on a share of the cases
         c['reads'] = c['backend'] != 'dict' and rng.random() < (0.25 if tier == 'quick' else 0.15)
         # the archive writer's own file object is proxied (every low-level write is a position) on a share of the zip cases
@@ -558,6 +623,7 @@ def _gen_cases(rng, tier, ctx):
     cases.extend(overwrite_existing_cases(backends + ['cfs'], rng))
     cases.extend(lowlevel_cases(tier))
     cases.extend(same_object_cases(backends + ['cfs']))
+    cases.extend(load_cases(backends + ['cfs']))
     # random templates on random storages
     for _ in range({'quick': 150, 'thorough': 2500}[tier]):
         cases.append(rand_case(rng, rng.choice(backends)))
@@ -585,6 +651,8 @@ def histogram_keys(case, obs):
     hops = [h['op'] for h in case['history']]
     if 'delete' in hops and any(o in ('store', 'overwrite') for o in hops[hops.index('delete'):]):
         keys.append('history:delete-then-store')
+    if 'load' in hops:
+        keys.append('history:load-caches-new-objects')
     if any(h.get('how') == 'reopen' for h in case['history']):
         keys.append('history:new-PulseStorage-object-takes-over')
     if case.get('kill') and case['backend'] != 'dict':
@@ -610,7 +678,7 @@ def histogram_keys(case, obs):
             keys.append('kill:process-really-killed-at-%s-positions' % ('1-2' if nreal <= 2 else '3+'))
     else:
         keys.append('obs:crash')
-    if case['note'].split()[0] in ('enum', 'order', 'hist', 'ow', 'lowlevel', 'same'):
+    if case['note'].split()[0] in ('enum', 'order', 'hist', 'ow', 'lowlevel', 'same', 'load'):
         keys.append('stream:' + case['note'].split()[0])
     elif case['note'].startswith('corpus'):
         keys.append('stream:corpus')
@@ -786,6 +854,8 @@ def shrink(case, obs, ctx):
         progress = False
         cands = []
         for j in range(len(cur['history'])):
+            if cur['history'][j]['op'] == 'load':
+                continue        # objects of later operations are the ones a load created
             c = copy.deepcopy(cur)
             del c['history'][j]
             cands.append(c)
